@@ -941,6 +941,30 @@ func (w *World) evalBool(v ssa.Value, st *pathState, eval func(ssa.Value) (bool,
 				if b, ok := eval(v); ok {
 					return b, true
 				}
+				// the error result of a callee that was expanded on this path
+				if st != nil && st.callTerm != nil {
+					var call *ssa.Call
+					idx := 0
+					switch y := stripConv(pr[0]).(type) {
+					case *ssa.Call:
+						call = y
+					case *ssa.Extract:
+						call, _ = y.Tuple.(*ssa.Call)
+						idx = y.Index
+					}
+					if call != nil {
+						if t, ok := st.callTerm[call]; ok {
+							if cal := call.Common().StaticCallee(); cal != nil && errResultIndex(cal) == idx {
+								switch t {
+								case "err":
+									return x.Op == token.NEQ, true
+								case "ok":
+									return x.Op == token.EQL, true
+								}
+							}
+						}
+					}
+				}
 				if n := w.nilnessOnPath(pr[0], st, eval, depth); n != 0 {
 					return (n < 0) == (x.Op == token.EQL), true
 				}
